@@ -678,6 +678,23 @@ func (s *Session) initMemManager() error {
 	return nil
 }
 
+// checkShmMetadata reports whether body (the payload of a share-memory event received during
+// the handshake) holds the two length-prefixed paths that extractShmMetadata reads.
+func checkShmMetadata(body []byte) error {
+	if len(body) < 2 {
+		return ErrInvalidMsgType
+	}
+	queuePathLen := int(binary.BigEndian.Uint16(body[0:2]))
+	if len(body) < 2+queuePathLen+2 {
+		return ErrInvalidMsgType
+	}
+	bufferPathLen := int(binary.BigEndian.Uint16(body[2+queuePathLen : 2+queuePathLen+2]))
+	if len(body) < 2+queuePathLen+2+bufferPathLen {
+		return ErrInvalidMsgType
+	}
+	return nil
+}
+
 func (s *Session) extractShmMetadata(body []byte) (bufferPath string, queuePath string) {
 	offset := 0
 	queuePathLen := int(binary.BigEndian.Uint16(body[0:2]))
